@@ -8,6 +8,8 @@ import (
 	"go/types"
 	"sort"
 	"strings"
+
+	"golang.org/x/tools/go/ssa"
 )
 
 func init() {
@@ -657,6 +659,72 @@ func checkC20(w *World, r *Report) {
 				}
 			}
 			r.Check(pure, "R20.3", n, f.Pos(), "no store through its argument, no global write", n+" (or its closure) modifies the schema node it inspects or global state: filtering would change surviving nodes")
+		}
+	})
+
+	r.Rule("R20.5", "schema constructors attach children by kind, not by content: every predicate handed to addToChoices/includeChildrenOf/addToChildrenExcluding in package schema is a named kind test whose body uses its parameter only in type assertions (constructors run bottom-up on already filtered children, so a content-dependent predicate makes a surviving choice/case differ from the pruned unfiltered schema)", 8)
+	r.guard("R20.5", func() {
+		sp := w.SSAPkg("schema")
+		takers := map[string]bool{"addToChoices": true, "includeChildrenOf": true, "addToChildrenExcluding": true}
+		for _, t := range []string{"addToChoices", "includeChildrenOf", "addToChildrenExcluding"} {
+			if sp.Func(t) == nil {
+				panic(undecided{"schema." + t + " not found"})
+			}
+		}
+		for _, f := range allFuncs(sp) {
+			{
+				for _, b := range f.Blocks {
+					for _, in := range b.Instrs {
+						call, ok := in.(ssa.CallInstruction)
+						if !ok {
+							continue
+						}
+						callee := call.Common().StaticCallee()
+						if callee == nil || callee.Pkg != sp || !takers[callee.Name()] {
+							continue
+						}
+						for ai, a := range call.Common().Args {
+							what := fmt.Sprintf("%s: %s arg %d", funcKey(f), callee.Name(), ai)
+							for {
+								if ct, ok := a.(*ssa.ChangeType); ok {
+									a = ct.X
+									continue
+								}
+								break
+							}
+							if c, ok := a.(*ssa.Const); ok && c.IsNil() {
+								r.OK("R20.5", what, in.Pos(), "nil (no predicate)")
+								continue
+							}
+							pf, ok := a.(*ssa.Function)
+							if !ok {
+								r.Fail("R20.5", what, in.Pos(), "predicate is not a named function: "+a.String()+" — cannot show it is a kind test")
+								continue
+							}
+							bad := ""
+							if len(pf.Params) != 1 || pf.Blocks == nil {
+								bad = "unexpected shape"
+							} else {
+								for _, ref := range *pf.Params[0].Referrers() {
+									switch ref.(type) {
+									case *ssa.TypeAssert, *ssa.DebugRef:
+									default:
+										bad = "uses its argument in `" + ref.String() + "`"
+									}
+								}
+								for _, bb := range pf.Blocks {
+									for _, ii := range bb.Instrs {
+										if _, isCall := ii.(ssa.CallInstruction); isCall {
+											bad = "calls " + ii.String()
+										}
+									}
+								}
+							}
+							r.Check(bad == "", "R20.5", what, in.Pos(), pf.Name()+": pure kind test", pf.Name()+" "+bad+": which children a choice/case/container keeps depends on node content, so a node whose content was pruned by the filter is attached differently than in the unfiltered compile")
+						}
+					}
+				}
+			}
 		}
 	})
 
